@@ -10,7 +10,10 @@ top level, inside functions, methods, comprehensions, handlers and multi-line st
 
 A case is JSON-able:
   {"code": str, "filename": str, "inputs": [str], "calls": [{"fn", "args": [expr], "kwargs": {k: expr},
-   "target": str|absent, "inputs": [str]|absent}], "api": "commands"|"sandbox", "shape": [tags]}
+   "fkw": {k: expr}|absent (keywords handed over through function_kwargs=), "via": "get_function"|absent,
+   "target": str|absent, "inputs": [str]|absent}], "api": "commands"|"sandbox"|"commands+report",
+   "run_via": a spelling of queueing the inputs and starting the run|absent, "shape": [tags]}
+(the public spellings are laid over the generated cases by sandboxequiv_api.respell)
 """
 
 INT_NAMES = ["a", "b", "n", "count", "total", "i2", "num", "_"]
@@ -560,6 +563,14 @@ class G:
         takes = r.choice(["int", "int", "list", "str", "any"])
         arity = r.choice([0, 1, 1, 2, 2, 3])
         params = ["p%d" % i for i in range(arity)]
+        if arity and r.random() < 0.15:
+            # parameters NAMED like the parameters of the grader's own call() / run() (target, inputs, report, ...): a
+            # keyword argument with such a name has to reach the student's function all the same
+            picked = r.sample(self.WRAPPER_NAMES, min(len(self.WRAPPER_NAMES), r.randint(1, arity)))
+            for i, n in enumerate(picked):
+                if n not in self.vars and n not in self.funcs:
+                    params[arity - 1 - i] = n
+            self.shape.add("wrapper-named-parameter")
         defaults = r.choice([0, 0, 1]) if arity else 0
         sig = []
         for i, p in enumerate(params):
@@ -753,6 +764,9 @@ class G:
         return code
 
     DEPTHS = [1, 3, 6, 7, 8, 9, 10, 12, 17, 31, 64]       # replaced by c06.py with the sizes around the tree's constants
+    # replaced by c06.py with the parameter names read from pedal/sandbox/commands.py of the tree under test
+    WRAPPER_NAMES = ["function", "target", "threaded", "inputs", "function_kwargs", "args_locals", "kwargs_locals", "report",
+                     "self", "code", "filename"]
 
     ARG_EXPRS = {
         "depth": [],
@@ -801,7 +815,15 @@ class G:
                 kwargs[info["params"][-1]] = r.choice(self.ARG_EXPRS[info["takes"]])
             if info.get("kwonly") and r.random() < 0.7:
                 kwargs[r.choice(["extra", "mode"])] = r.choice(self.ARG_EXPRS["any"])
+            if info["arity"] and len(args) < info["arity"] and info["params"][len(args)] in self.WRAPPER_NAMES and r.random() < 0.7:
+                # the next parameter by keyword - its name is one of call()'s own
+                kwargs[info["params"][len(args)]] = r.choice(self.ARG_EXPRS[info["takes"]] or ["3"])
             c = {"fn": fn, "args": args, "kwargs": kwargs}
+            # a keyword named like a parameter of call() itself travels through function_kwargs= (the documented way)
+            fkw = {k: v for k, v in kwargs.items() if k in self.WRAPPER_NAMES}
+            if fkw:
+                c["kwargs"] = {k: v for k, v in kwargs.items() if k not in fkw}
+                c["fkw"] = fkw
             if r.random() < 0.25:
                 c["target"] = r.choice(["res", "answer", "_out", "x"])
             if r.random() < 0.15:
